@@ -74,7 +74,7 @@ def q_rules(P, E):
         ab, held, sh = _field_acqs(P, b, "abort")
         qa, _, _ = _field_acqs(P, b, "queue")
         for bb, a in ab.items():
-            if a["mode"] != "W":
+            if a["mode"] not in ("W", "M"):
                 continue
             nq1 += 1
             r.instance(("Q1", b.nid), True, "abort write-acquired at bb%d; queue guards held: %s" % (bb, sorted(held.get(bb, set()) & set(qa))))
